@@ -1,6 +1,7 @@
 package rules
 
 import (
+	"go/constant"
 	"go/token"
 	"go/types"
 	"strings"
@@ -174,4 +175,119 @@ func ruleRestoredPartitionsAreStarted(c *eng.Ctx) {
 		}
 	}
 	c.Check(!onlyApply, "recovered partitions are started after a snapshot restore", p.Pos(fn.Pos()), "finishedRecovery (or its successor) is reached from the restore / start path too", "finishedRecovery — the only place that starts partitions created with recovered = true — is called from Apply alone, for the last replayed entry: a server that restarts from a snapshot with no command entry after it never starts its partitions (leader = this server, isLeading = false), even after further live operations")
+}
+
+// ruleCursorKeyInjective (R11.7, known finding K13): the cursor key is the compaction key, the cache key and the hash input of a
+// cursor; two different (cursor id, stream, partition) triples must not share one. Joining the raw strings with a separator
+// that both may contain is not injective. Structural condition: every string component handed to the formatting call in
+// getCursorKey went through an escaping / encoding call (or is formatted with %q).
+func ruleCursorKeyInjective(c *eng.Ctx) {
+	fn := c.Fn("server.(*cursorManager).getCursorKey")
+	if fn == nil {
+		return
+	}
+	sp := eng.CallsIn(fn, "fmt.Sprintf")
+	if len(sp) != 1 {
+		c.Unresolved("the formatting call of getCursorKey")
+		return
+	}
+	raw := 0
+	quoted := false
+	if k, isK := sp[0].Common().Args[0].(*ssa.Const); isK && k.Value != nil && !strings.Contains(constant.StringVal(k.Value), "%s") {
+		quoted = true
+	}
+	for _, e := range variadicElems(sp[0].Common().Args[1]) {
+		v := e
+		if mi, isMI := v.(*ssa.MakeInterface); isMI {
+			v = mi.X
+		}
+		if par, isPar := v.(*ssa.Parameter); isPar && par.Type().String() == "string" {
+			raw++
+		}
+	}
+	c.Check(raw == 0 || quoted, "cursor key is an injective encoding of (cursor id, stream, partition)", c.P.Pos(fn.Pos()), "string components are escaped before they are joined", "getCursorKey joins the raw cursor id and stream name with `,`: (id `a,b`, stream `c`) and (id `a`, stream `b,c`) share the key `a,b,c,0` — one consumer's SetCursor is returned by the other's FetchCursor, and compaction keeps only one of the two cursors")
+}
+
+// ruleCleaningPassExcludesListRewrites (R08.8, known finding K14; C08 and C09): Clean works for its whole pass on a snapshot
+// of l.segments and installs a list derived from it at the end. That is only right if nobody rewrites the list in between.
+// Growth at the end (a roll) is rebased by Clean itself; every other writer of l.segments has to be excluded for the whole
+// pass, i.e. hold — in write mode — a lock that Clean holds from its snapshot to its install.
+func ruleCleaningPassExcludesListRewrites(c *eng.Ctx) {
+	p := c.P
+	fn := c.Fn(cl + "(*commitLog).Clean")
+	segF := p.Field(clPkg, "commitLog", "segments")
+	if fn == nil || segF == nil {
+		return
+	}
+	var snap, inst ssa.Instruction
+	eng.Instrs(fn, func(in ssa.Instruction) {
+		switch x := in.(type) {
+		case *ssa.UnOp:
+			if snap == nil && eng.Load(segF, nil)(x) {
+				snap = in
+			}
+		case *ssa.Store:
+			if fa, ok := x.Addr.(*ssa.FieldAddr); ok && fieldIs(fa, segF) {
+				inst = in
+			}
+		}
+	})
+	work := eng.CallsIn(fn, cl+"commitLog.clean")
+	if snap == nil || inst == nil || len(work) != 1 {
+		c.Unresolved("snapshot load / clean call / install store of l.segments in Clean")
+		return
+	}
+	la := eng.LocksOf(p, fn, 0)
+	held := map[string]int{}
+	s1, s2, s3 := la.At(snap), la.At(work[0].(ssa.Instruction)), la.At(inst)
+	for k, m := range s1 {
+		if s2[k] >= 1 && s3[k] >= 1 {
+			held[k] = m
+			if s2[k] < held[k] {
+				held[k] = s2[k]
+			}
+			if s3[k] < held[k] {
+				held[k] = s3[k]
+			}
+		}
+	}
+	ctor := commitLogCtorPath(c)
+	n := 0
+	for _, w := range p.Funcs {
+		k := ir.FuncKey(w)
+		if w == fn || ctor[k] != "" || !strings.HasPrefix(k, cl) {
+			continue
+		}
+		for _, st := range eng.FieldStores(w, func(fa *ssa.FieldAddr) bool { return fieldIs(fa, segF) }) {
+			// growth at the end is what Clean rebases
+			if ap, isCall := eng.Strip(st.Val).(*ssa.Call); isCall {
+				if b, isB := ap.Common().Value.(*ssa.Builtin); isB && b.Name() == "append" && eng.Load(segF, nil)(ap.Common().Args[0]) {
+					continue
+				}
+			}
+			n++
+			wl := eng.LocksOf(p, w, 0).At(st)
+			excl := false
+			for hk := range held {
+				// same lock field, by its name relative to the receiver
+				for wk, wm := range wl {
+					if lockSuffix(hk) == lockSuffix(wk) && wm == 2 {
+						excl = true
+					}
+				}
+			}
+			c.Check(excl, "a cleaning pass excludes the segment-list rewrite in "+ir.FuncKey(ir.Outermost(w)), c.Pos(st), "the writer holds, exclusively, a lock that Clean holds from its snapshot of l.segments to the install of the cleaned list", "Clean snapshots l.segments, works on the snapshot without any lock for the whole pass (compaction: minutes on a large log) and then installs a list derived from it; this function can rewrite l.segments in between: a follower's Truncate during a cleaning pass is undone by the install — the truncated active segment is un-listed in favour of the old, closed one, its files are deleted by name, the epoch history removed by the truncation is restored — and readers and appends fail from then on")
+		}
+	}
+	if n == 0 {
+		c.Unresolved("writers of commitLog.segments other than Clean and rolls (Truncate on the reference tree)")
+	}
+}
+
+// lockSuffix: the last selector of a lock path ("l.mu" → "mu").
+func lockSuffix(k string) string {
+	if i := strings.LastIndex(k, "."); i >= 0 {
+		return k[i+1:]
+	}
+	return k
 }
